@@ -266,8 +266,9 @@ class StreamableHTTPTransport(Transport):
                                 await self._route_response(response_data)
                         except Exception as e:
                             logger.debug(f"Could not parse response: {e}")
-                            # For empty 202 responses, don't treat as error
-                            if response.status_code == 202:
+                            # A 202 acknowledges a notification: nothing to report.
+                            # A request still needs its terminal message.
+                            if response.status_code == 202 and not message_id:
                                 logger.debug(f"202 Accepted for {message_id}")
                                 return
                             error_response = {
